@@ -244,10 +244,14 @@ def inline_literal_constants(tree):
             counts[n.name] = counts.get(n.name, 0) + 2
     consts = {}
     for st in tree.body:
+        v = st.value if isinstance(st, ast.Assign) else None
+        if isinstance(v, ast.UnaryOp) and isinstance(v.op, ast.USub) and isinstance(v.operand, ast.Constant) and \
+                isinstance(v.operand.value, (int, float)) and not isinstance(v.operand.value, bool):
+            v = ast.copy_location(ast.Constant(value=-v.operand.value), v)          # a negative numeric literal
         if isinstance(st, ast.Assign) and len(st.targets) == 1 and isinstance(st.targets[0], ast.Name) and \
-                isinstance(st.value, ast.Constant) and isinstance(st.value.value, (str, bytes, int, float)) and \
-                not isinstance(st.value.value, bool) and counts.get(st.targets[0].id) == 1:
-            consts[st.targets[0].id] = st.value
+                isinstance(v, ast.Constant) and isinstance(v.value, (str, bytes, int, float)) and \
+                not isinstance(v.value, bool) and counts.get(st.targets[0].id) == 1:
+            consts[st.targets[0].id] = v
     if not consts:
         return {}
 
@@ -594,6 +598,19 @@ def splice_star_tuples(tree):
     for c in [x for x in ast.walk(tree) if isinstance(x, ast.Call)]:
         splice(c)
 
+    class Dunder(ast.NodeTransformer):
+        # x.__getitem__(k) is x[k] (a bound special method handed around as a callable and then called)
+        def visit_Call(self, c):
+            self.generic_visit(c)
+            if isinstance(c.func, ast.Attribute) and c.func.attr == '__getitem__' and len(c.args) == 1 and not c.keywords and \
+                    not isinstance(c.args[0], ast.Starred) and not (isinstance(c.func.value, ast.Call) and
+                                                                    ast.unparse(c.func.value.func) == 'super') and \
+                    not (isinstance(c.func.value, ast.Name) and c.func.value.id in ('dict', 'list', 'tuple', 'str', 'object')):
+                count[0] += 1
+                return ast.copy_location(ast.Subscript(value=c.func.value, slice=c.args[0], ctx=ast.Load()), c)
+            return c
+    Dunder().visit(tree)
+
     class Disp(ast.NodeTransformer):
         # [*x] is list(x), (*x,) is tuple(x), {*x} is set(x)
         def _one(self, n, name):
@@ -655,6 +672,37 @@ def hoist_walrus_and_split_call_ifexp(tree):
     return count[0]
 
 
+def expand_closing(tree):
+    """Normalisation: `with closing(X): BODY` (contextlib.closing, no `as` or `as` a plain name) is
+    `[name = X]; try: BODY finally: X.close()`."""
+    imported = any(isinstance(n, ast.ImportFrom) and n.module == 'contextlib' and any(a.name == 'closing' and a.asname in (None, 'closing')
+                                                                                      for a in n.names) for n in ast.walk(tree))
+    if not imported:
+        return 0
+    count = [0]
+
+    class T(ast.NodeTransformer):
+        def visit_With(self, w):
+            self.generic_visit(w)
+            if len(w.items) == 1 and isinstance(w.items[0].context_expr, ast.Call) and \
+                    isinstance(w.items[0].context_expr.func, ast.Name) and w.items[0].context_expr.func.id == 'closing' and \
+                    len(w.items[0].context_expr.args) == 1 and isinstance(w.items[0].context_expr.args[0], (ast.Name, ast.Attribute)) and \
+                    (w.items[0].optional_vars is None or isinstance(w.items[0].optional_vars, ast.Name)):
+                x = w.items[0].context_expr.args[0]
+                count[0] += 1
+                pre = []
+                if w.items[0].optional_vars is not None:
+                    pre.append(ast.copy_location(ast.Assign(targets=[w.items[0].optional_vars], value=copy.deepcopy(x)), w))
+                close = ast.copy_location(ast.Expr(value=ast.Call(func=ast.Attribute(value=copy.deepcopy(x), attr='close', ctx=ast.Load()),
+                                                                  args=[], keywords=[])), w)
+                t = ast.copy_location(ast.Try(body=w.body, handlers=[], orelse=[], finalbody=[close]), w)
+                return pre + [t]
+            return w
+    T().visit(tree)
+    ast.fix_missing_locations(tree)
+    return count[0]
+
+
 def split_conditional_returns(tree):
     """Normalisation: `return A if C else B` is the statement `if C: return A` / `else: return B` (nested conditional
     expressions likewise), so that the path rules see the condition as a test and each alternative as the value of its own
@@ -679,6 +727,30 @@ def split_conditional_returns(tree):
     T().visit(tree)
     ast.fix_missing_locations(tree)
     return count[0]
+
+
+def _stmt_blocks(fn):
+    """every statement list of fn (not of nested functions / classes), with, for each statement, the ids of all nodes of the
+    statements that follow it in the same list"""
+    out = []
+    stack = [fn.body]
+    while stack:
+        blk = stack.pop()
+        out.append(blk)
+        for st in blk:
+            if isinstance(st, (ast.FunctionDef, ast.AsyncFunctionDef, ast.ClassDef)):
+                continue
+            for field in ('body', 'orelse', 'finalbody'):
+                sub = getattr(st, field, None)
+                if isinstance(sub, list) and sub and isinstance(sub[0], ast.stmt):
+                    stack.append(sub)
+            if isinstance(st, ast.Try):
+                for h in st.handlers:
+                    stack.append(h.body)
+            if isinstance(st, ast.Match) if hasattr(ast, 'Match') else False:
+                for c in st.cases:
+                    stack.append(c.body)
+    return out
 
 
 def inline_bound_method_aliases(tree):
@@ -725,13 +797,15 @@ def inline_bound_method_aliases(tree):
         nested_args = {a.arg for x in all_nodes if x is not fn and isinstance(x, (ast.FunctionDef, ast.AsyncFunctionDef, ast.Lambda))
                        for a in ast.walk(x.args) if isinstance(a, ast.arg)}
         cands = {}
-        for st in fn.body:
+        blocks = _stmt_blocks(fn)
+        for blk, st in [(b, s_) for b in blocks for s_ in b]:
             if not (isinstance(st, ast.Assign) and len(st.targets) == 1):
                 continue
             tg, vv = st.targets[0], st.value
             pairs = [(tg, vv)]
             if isinstance(tg, ast.Tuple) and isinstance(vv, ast.Tuple) and len(tg.elts) == len(vv.elts):
                 pairs = list(zip(tg.elts, vv.elts))
+            later = {id(x) for s2 in blk[blk.index(st) + 1:] for x in ast.walk(s2)}
             for a, e in pairs:
                 if not isinstance(a, ast.Name):
                     continue
@@ -754,7 +828,7 @@ def inline_bound_method_aliases(tree):
                 callees = {id(c.func) for c in all_nodes if isinstance(c, ast.Call) and isinstance(c.func, ast.Name) and c.func.id == a.id}
                 # uses inside nested functions are fine too (neither the alias nor its root is ever rebound), as long as
                 # the nested function is defined after the alias
-                if not uses or any(id(u) not in callees or u.lineno <= st.lineno for u in uses):
+                if not uses or any(id(u) not in callees or id(u) not in later for u in uses):
                     continue
                 cands[a.id] = (e, st)
         if not cands:
@@ -771,25 +845,27 @@ def inline_bound_method_aliases(tree):
                     for x in ast.walk(c.func):
                         ast.copy_location(x, c)
                 return c
-        new_body = []
-        for st in fn.body:
-            if isinstance(st, ast.Assign) and any(st is v[1] for v in cands.values()):
-                tg, vv = st.targets[0], st.value
-                if isinstance(tg, ast.Name):
-                    total[0] += 1
-                    continue
-                keep = [(a, e) for a, e in zip(tg.elts, vv.elts) if not (isinstance(a, ast.Name) and a.id in cands and cands[a.id][1] is st)]
-                total[0] += len(tg.elts) - len(keep)
-                if not keep:
-                    continue
-                if len(keep) == 1:
-                    st = ast.copy_location(ast.Assign(targets=[keep[0][0]], value=keep[0][1]), st)
-                else:
-                    st = ast.copy_location(ast.Assign(
-                        targets=[ast.copy_location(ast.Tuple(elts=[a for a, _ in keep], ctx=ast.Store()), tg)],
-                        value=ast.copy_location(ast.Tuple(elts=[e for _, e in keep], ctx=ast.Load()), vv)), st)
-            new_body.append(st)
-        fn.body = new_body or [ast.copy_location(ast.Pass(), fn)]
+        for blk in blocks:
+            new_body = []
+            for st in blk:
+                if isinstance(st, ast.Assign) and any(st is v[1] for v in cands.values()):
+                    tg, vv = st.targets[0], st.value
+                    if isinstance(tg, ast.Name):
+                        total[0] += 1
+                        continue
+                    keep = [(a, e) for a, e in zip(tg.elts, vv.elts)
+                            if not (isinstance(a, ast.Name) and a.id in cands and cands[a.id][1] is st)]
+                    total[0] += len(tg.elts) - len(keep)
+                    if not keep:
+                        continue
+                    if len(keep) == 1:
+                        st = ast.copy_location(ast.Assign(targets=[keep[0][0]], value=keep[0][1]), st)
+                    else:
+                        st = ast.copy_location(ast.Assign(
+                            targets=[ast.copy_location(ast.Tuple(elts=[a for a, _ in keep], ctx=ast.Store()), tg)],
+                            value=ast.copy_location(ast.Tuple(elts=[e for _, e in keep], ctx=ast.Load()), vv)), st)
+                new_body.append(st)
+            blk[:] = new_body or [ast.copy_location(ast.Pass(), fn)]
         Sub().visit(fn)
     for fn in [x for x in ast.walk(tree) if isinstance(x, (ast.FunctionDef, ast.AsyncFunctionDef))]:
         do_fn(fn)
@@ -845,12 +921,13 @@ def inline_attribute_aliases(tree):
                 escapes |= set(x.names)
         nested_args = {a.arg for x in all_nodes if x is not fn and isinstance(x, (ast.FunctionDef, ast.AsyncFunctionDef, ast.Lambda))
                        for a in ast.walk(x.args) if isinstance(a, ast.arg)}
-        top = {id(st) for st in fn.body}
         cands = {}
-        for st in fn.body:
+        blocks = _stmt_blocks(fn)
+        for blk, st in [(b, s_) for b in blocks for s_ in b]:
             if not (isinstance(st, ast.Assign) and len(st.targets) == 1 and isinstance(st.targets[0], ast.Name)):
                 continue
             a, e = st.targets[0], st.value
+            later = {id(x) for s2 in blk[blk.index(st) + 1:] for x in ast.walk(s2)}
             root, parts = chain(e)
             if root is None or a.id in params or a.id in escapes or a.id in nested_args or root in nested_args or root in escapes:
                 continue
@@ -865,7 +942,7 @@ def inline_attribute_aliases(tree):
             if any(stored_in.get(pt, set()) - _CONSTRUCTORS for pt in parts):
                 continue
             uses = [x for x in all_nodes if isinstance(x, ast.Name) and x.id == a.id and isinstance(x.ctx, ast.Load)]
-            if not uses or any(u.lineno <= st.lineno for u in uses):
+            if not uses or any(id(u) not in later for u in uses):
                 continue
             cands[a.id] = (e, st)
         if not cands:
@@ -882,7 +959,8 @@ def inline_attribute_aliases(tree):
                         ast.copy_location(x, n)
                     return new
                 return n
-        fn.body = [st for st in fn.body if not any(st is v[1] for v in cands.values())] or [ast.copy_location(ast.Pass(), fn)]
+        for blk in blocks:
+            blk[:] = [st for st in blk if not any(st is v[1] for v in cands.values())] or [ast.copy_location(ast.Pass(), fn)]
         total[0] += len(cands)
         Sub().visit(fn)
     for fn in [x for x in ast.walk(tree) if isinstance(x, (ast.FunctionDef, ast.AsyncFunctionDef))]:
@@ -947,16 +1025,22 @@ def expand_method_wrappers(tree):
 
 
 class Module:
-    def __init__(self, name, path, relpath, source):
+    def __init__(self, name, path, relpath, source, view=None):
         self.name = name
         self.path = path
         self.relpath = relpath
         self.source = source
         self.tree = ast.parse(source, filename=path)
+        self.view = view
+        self.inlined_helper_calls = 0
+        if view == 'helpers-inlined':
+            from sa.inline import inline_private_helpers
+            self.inlined_helper_calls = inline_private_helpers(self.tree, name)
         self.inlined_constants = inline_literal_constants(self.tree)
         self.unrolled_table_loops = unroll_table_loops(self.tree)
         self.expanded_method_wrappers = expand_method_wrappers(self.tree)
         self.split_parallel_assignments = split_parallel_assignments(self.tree)
+        self.expanded_closing = expand_closing(self.tree)
         self.hoisted_walrus = hoist_walrus_and_split_call_ifexp(self.tree)
         self.inlined_method_aliases = inline_bound_method_aliases(self.tree)
         self.inlined_attribute_aliases = inline_attribute_aliases(self.tree)
@@ -1070,9 +1154,10 @@ class Module:
 
 
 class Program:
-    def __init__(self, root=None, overlay=None):
+    def __init__(self, root=None, overlay=None, view=None):
         self.root = root or REPO
         self.overlay = overlay or {}
+        self.view = view
         self.modules = {}
         h = hashlib.sha256()
         paths = sorted(glob.glob(os.path.join(self.root, PKG, '*.py')))
@@ -1088,7 +1173,7 @@ class Program:
                     src = f.read()
             h.update(rel.encode() + b'\0' + src.encode('utf-8') + b'\0')
             try:
-                self.modules[name] = Module(name, p, rel, src)
+                self.modules[name] = Module(name, p, rel, src, view=view)
             except SyntaxError as e:
                 raise AnalysisError('cannot parse %s: %s' % (rel, e))
         self.digest = h.hexdigest()
